@@ -1,0 +1,44 @@
+//go:build verif
+
+package lastgersync
+
+import (
+	"context"
+	"database/sql"
+
+	"github.com/agglayer/aggkit/sync"
+)
+
+// VerifProcessor exposes the real injected-GER processor to the external
+// verification harness (/verif). Only compiled with -tags verif.
+type VerifProcessor struct {
+	p *processor
+}
+
+func NewVerifProcessor(dbPath string) (*VerifProcessor, error) {
+	p, err := newProcessor(dbPath)
+	if err != nil {
+		return nil, err
+	}
+	return &VerifProcessor{p: p}, nil
+}
+
+func (v *VerifProcessor) ProcessBlock(ctx context.Context, b sync.Block) error {
+	return v.p.ProcessBlock(ctx, b)
+}
+
+func (v *VerifProcessor) Reorg(ctx context.Context, firstReorgedBlock uint64) error {
+	return v.p.Reorg(ctx, firstReorgedBlock)
+}
+
+func (v *VerifProcessor) GetLastProcessedBlock(ctx context.Context) (uint64, error) {
+	return v.p.GetLastProcessedBlock(ctx)
+}
+
+func (v *VerifProcessor) DB() *sql.DB { return v.p.database }
+
+// Facade returns a *LastGERSync whose queries are served by this processor (no driver).
+func (v *VerifProcessor) Facade() *LastGERSync { return &LastGERSync{processor: v.p} }
+
+// VerifProcessorOf returns the processor behind a fully built *LastGERSync.
+func VerifProcessorOf(s *LastGERSync) *VerifProcessor { return &VerifProcessor{p: s.processor} }
